@@ -39,6 +39,20 @@ def showB (r : R BoolRes) : String :=
   | .ok .t => "bool:T" | .ok .f => "bool:F" | .ok .m => "bool:FT"
   | .error e => "err:" ++ e.name
 
+def showInts (r : R (List Int)) : String :=
+  match r with
+  | .ok l => "list " ++ ",".intercalate (l.map toString)
+  | .error e => "err:" ++ e.name
+
+def showOptInt (r : R (Option Int)) : String :=
+  match r with
+  | .ok none => "none"
+  | .ok (some v) => s!"int {v}"
+  | .error e => "err:" ++ e.name
+
+def nums? (l : List (Option Arg)) : Option (List Nat) :=
+  l.mapM fun a => match a with | some (.num n) => some n | _ => none
+
 def handleSI (toks : List String) : String :=
   match toks with
   | [] => "bad-op"
@@ -59,6 +73,12 @@ def handleSI (toks : List String) : String :=
       | "union" => showR (a.union b)
       | "lub" => showR (leastUpperBound [a, b])
       | "concat" => showR (a.concat b)
+      | "mul" => showR (a.mul b)
+      | "mod" => showR (a.mod b)
+      | "eq" => showB (a.eq b)
+      | "ne" => showB (do return (← a.eq b).not)
+      | "widen" => showR (a.widen b)
+      | "intersection" => showR (a.intersection b)
       | _ => "unmodelled"
     | [some (.si a), some (.si b), some (.si c)] =>
       match op with
@@ -69,16 +89,26 @@ def handleSI (toks : List String) : String :=
       | "neg" => showSI a.neg
       | "opneg" => showSI a.neg
       | "not" => showR a.bitwiseNot
+      | "cardinality" => (match a.cardinality with | .ok n => s!"int {n}" | .error e => "err:" ++ e.name)
       | _ => "unmodelled"
     | [some (.si a), some (.num n)] =>
       match op with
       | "zext" => showR (a.zeroExtend n)
       | "sext" => showR (a.signExtend n)
+      | "solution" => (match a.solution n with | .ok b => (if b then "true" else "false") | .error e => "err:" ++ e.name)
+      | "max" => showOptInt (a.max (n != 0))
+      | "min" => showOptInt (a.min (n != 0))
       | _ => "unmodelled"
     | [some (.si a), some (.num hi), some (.num lo)] =>
       match op with
       | "extract" => showR (a.extract hi lo)
+      | "eval" => showInts (a.eval hi (lo != 0))
       | _ => "unmodelled"
+    | some (.si a) :: some (.si b) :: rest =>
+      match nums? rest, op with
+      | some order, "udiv" => showR (a.udiv b order)
+      | some order, "sdiv" => showR (a.sdiv b order)
+      | _, _ => "unmodelled"
     | l => if l.any Option.isNone then "bad-arg" else "unmodelled"
 
 end DriverVSA
